@@ -17,12 +17,88 @@ EXPLANATION = (
     "algebraic rewriting (polynomial normal forms, temporaries substituted); the seasonal counter is incremented after "
     "the cap by the very Irr that is returned. C13.c (index spaces): Schedule is built on ClockStruct.time_span and read "
     "at the time-step counter; SMT is read at int(growth_stage)-1 and growth_stage is set to 1 on the first day of a "
-    "season before it is used. C13.d: each strategy's parameter is read only inside that strategy's branch. NOT decided: "
+    "season before it is used. C13.d: each strategy's parameter is read only inside that strategy's branch. C13.e: the daily schedule is aligned with the simulation days by label; a day offset used as an array position "
+    "must be checked against 0 and the length (negative offsets wrap). NOT decided: "
     "interval arithmetic ((dap-1) % k), the threshold comparison and the refill amount (numeric).")
 
 
 def _find_irrigation(prog):
     return prog.find_func("irrigation")
+
+
+# --------------------------------------------------------------------------------------------- C13.e
+
+_OFFSET_EXAMPLE = """
+def f(df, ClockStruct):
+    days = np.array((df.index - ClockStruct.time_span[0]).days)
+    in_sim = days < len(ClockStruct.time_span)
+    schedule = np.zeros(len(ClockStruct.time_span))
+    schedule[days[in_sim]] = np.array(df.Depth.values, dtype=float)[in_sim]
+    return schedule
+"""
+
+
+def _offset_index_sites(fn: ast.AST):
+    """[(subscript, offset name, has_lower_guard, has_upper_guard)] for day offsets (`(...).days`) used as array indices"""
+    offs = set()
+    for a in ast.walk(fn):
+        if isinstance(a, ast.Assign) and isinstance(a.targets[0], ast.Name) and any(isinstance(x, ast.Attribute) and x.attr == "days" for x in ast.walk(a.value)):
+            offs.add(a.targets[0].id)
+    out = []
+    for sub in ast.walk(fn):
+        if isinstance(sub, ast.Subscript) and not (isinstance(sub.value, ast.Name) and sub.value.id in offs):
+            used = {x.id for x in ast.walk(sub.slice) if isinstance(x, ast.Name)} & offs
+            # masks applied to the offsets: names m in `offs[m]`
+            for nm in used:
+                lower = upper = False
+                for c in ast.walk(fn):
+                    if isinstance(c, ast.Compare) and len(c.ops) == 1 and any(isinstance(x, ast.Name) and x.id == nm for x in ast.walk(c)):
+                        l, r, op = c.left, c.comparators[0], c.ops[0]
+                        zero = lambda e: isinstance(e, ast.Constant) and e.value in (0, -1)
+                        if (isinstance(l, ast.Name) and l.id == nm and zero(r) and isinstance(op, (ast.GtE, ast.Gt))) or \
+                           (isinstance(r, ast.Name) and r.id == nm and zero(l) and isinstance(op, (ast.LtE, ast.Lt))):
+                            lower = True
+                        if (isinstance(l, ast.Name) and l.id == nm and not zero(r) and isinstance(op, (ast.Lt, ast.LtE))) or \
+                           (isinstance(r, ast.Name) and r.id == nm and not zero(l) and isinstance(op, (ast.Gt, ast.GtE))):
+                            upper = True
+                out.append((sub, nm, lower, upper))
+    return out
+
+
+def rule_e(chk, prog):
+    """C13.e ('nothing on other dates', schedule dates outside the simulation included): the daily schedule is aligned with the simulation
+    days by label (reindex on time_span); where a day offset relative to the start is used as an array position instead, it is compared
+    with 0 and with the length (a negative offset wraps to the end of a numpy array)"""
+    ex = _offset_index_sites(ast.parse(_OFFSET_EXAMPLE).body[0])
+    if not ex or any(lo for _, _, lo, _ in ex) or not all(up for _, _, _, up in ex):
+        raise AnalysisError("C13.e: the rule no longer recognises its positive example")
+    from ..common import INIT_ROOT
+    n = 0
+    for key in sorted(prog.reachable_from(INIT_ROOT)):
+        fi = prog.funcs.get(key)
+        if fi is None:
+            continue
+        for sub, nm, lo, up in _offset_index_sites(fi.node):
+            n += 1
+            chk.fn(key)
+            where = f"{fi.module}:{fi.qualname}"
+            if lo and up:
+                chk.ok("C13.e", where, norm(sub)[:80], f"day offset {nm} compared with 0 and with the length")
+            else:
+                chk.violation("C13.e", where, norm(sub)[:80], f"the day offset {nm} (date minus simulation start) is used as an array position without a "
+                              f"{'lower' if not lo else 'upper'} bound check: a date before the start gives a negative offset, which numpy wraps to the end "
+                              "of the array - water is applied on a day that is not scheduled", loc=fi.loc(sub))
+    # label alignment of the schedule handed to the model
+    rim = prog.find_func("read_irrigation_management")
+    chk.fn(rim.key)
+    aligned = [c for c in walk_no_nested(rim.node) if isinstance(c, ast.Call) and isinstance(c.func, ast.Attribute) and c.func.attr == "reindex"
+               and c.args and any(isinstance(x, ast.Attribute) and x.attr == "time_span" for x in ast.walk(c.args[0]))]
+    if aligned:
+        chk.ok("C13.e", f"{rim.module}:{rim.qualname}", norm(aligned[0])[:80], "schedule aligned with the simulation days by label")
+    elif n == 0:
+        chk.violation("C13.e", f"{rim.module}:{rim.qualname}", "daily schedule array", "the schedule is neither aligned by label on time_span nor built from checked day offsets",
+                      loc=rim.loc())
+    chk.notes["day_offset_index_sites"] = n
 
 
 def run(chk, prog, tier):
@@ -219,6 +295,7 @@ def run(chk, prog, tier):
             else:
                 chk.violation("C13.d", where, construct, f"parameter of strategy {m} is read outside the branch {f_method} == {m}", loc=fi.loc(rd))
     chk.assume("A-1")
+    rule_e(chk, prog)
     chk.exhaustive = True
 
 
